@@ -1002,10 +1002,23 @@ def rule_charlen(ctx, F):
     for rb, si, kind, term in return_assignments(b):
         if term is not None and any(x[0] == "call" and x[5] in lencmp for x in walk(deep_strip(term))):
             returned = True
+        if term is None and str(kind).startswith("call:") and rb in lencmp:
+            returned = True     # `_0 = a.len().cmp(&b.len())` directly
     content = [bb for bb, t in b.calls() if (t["fn"] or "").endswith("Ord::cmp") and bb not in lencmp]
-    behind = bool(lencmp) and all(
-        any(v in (("variant", "Equal"), ("variant", 0), ("eq", 0)) and any(x[0] == "call" and x[5] in lencmp for x in walk(deep_strip(tm)))
-            for tm, v, _e in facts_at(b, cb, F)) for cb in content)
+
+    def _is_len(x):
+        x = deep_strip(x)
+        return x[0] == "call" and (x[1] or "").endswith("::len")
+
+    def _lens_equal(cb):
+        for tm, v, _e in facts_at(b, cb, F):
+            tm = deep_strip(tm)
+            if v in (("variant", "Equal"), ("variant", 0), ("eq", 0)) and any(x[0] == "call" and x[5] in lencmp for x in walk(tm)):
+                return True
+            if tm[0] == "bin" and tm[1] in ("Eq", "Ne") and _is_len(tm[2]) and _is_len(tm[3]) and v is (tm[1] == "Eq"):
+                return True
+        return False
+    behind = bool(lencmp) and all(_lens_equal(cb) for cb in content)
     ctx.ob(R, b, "character strings of different lengths are ordered by their length octet", bool(lencmp) and returned and behind,
            "CharStr::canonical_cmp %s: `aa` sorts before `b` although on the wire \\\\002aa follows \\\\001b -- an RRset of HINFO / "
            "NAPTR / TXT-like records is put (and signed) in an order no other implementation reproduces"
